@@ -81,7 +81,7 @@ def main():
     os.makedirs(dst, exist_ok=True)
     shutil.copy(patch, dst)
     for f in os.listdir(out):
-        if f not in ("patch.diff", "property.txt"):
+        if f not in ("patch.diff", "property.txt", "prompt.txt") and os.path.isfile(os.path.join(out, f)):
             shutil.copy(os.path.join(out, f), dst)
     notes = open(f"{out}/notes.md").read() if os.path.exists(f"{out}/notes.md") else ""
     meta["needs"] = notes[:1500]
